@@ -48,6 +48,7 @@ func (r *RolloutReconciler) calculateRolloutStatus(rollout *v1beta1.Rollout) (re
 			newStatus.Phase = v1beta1.RolloutPhaseTerminating
 			cond := util.NewRolloutCondition(v1beta1.RolloutConditionTerminating, corev1.ConditionTrue, v1alpha1.TerminatingReasonInTerminating, "Rollout is in terminating")
 			util.SetRolloutCondition(newStatus, *cond)
+			resetFinalisingStep(newStatus)
 		}
 		return false, newStatus, nil
 	}
@@ -57,6 +58,7 @@ func (r *RolloutReconciler) calculateRolloutStatus(rollout *v1beta1.Rollout) (re
 		if newStatus.Phase == v1beta1.RolloutPhaseProgressing {
 			newStatus.Phase = v1beta1.RolloutPhaseDisabling
 			newStatus.Message = "Disabling rollout, release resources"
+			resetFinalisingStep(newStatus)
 		} else {
 			newStatus.Phase = v1beta1.RolloutPhaseDisabled
 			newStatus.Message = "Rollout is disabled"
@@ -154,6 +156,16 @@ func (r *RolloutReconciler) calculateRolloutStatus(rollout *v1beta1.Rollout) (re
 		}
 	}
 	return false, newStatus, nil
+}
+
+// resetFinalisingStep makes the finalising task list start from its first task. The cursor may
+// still point into the task list of another finalising reason (e.g. a rollback that was in
+// progress when the Rollout got deleted or disabled); the lists are ordered differently, so
+// continuing from it would skip tasks. Every task is idempotent.
+func resetFinalisingStep(status *v1beta1.RolloutStatus) {
+	if sub := status.GetSubStatus(); sub != nil {
+		sub.FinalisingStep = ""
+	}
 }
 
 // rolloutHash mainly records the step batch information, when the user step changes,
